@@ -14,3 +14,4 @@ def run(rep, W, ctx):
     S.s_wmc(rep, W)
     S.c03_loop(rep, W)
     H.c18_handlers(rep, W)
+    H.c15_bound(rep, W)    # which write requests are *refused* (wrong content type, empty / oversized body) is defined by these guards
